@@ -1,6 +1,8 @@
 SPECIFICATION Spec
 CONSTANTS
   Addrs = {"A", "B"}
+  DevH = 1000
+  DevLock = 0
   MatDelay = 1
   AllowH = 0
   RequireH = 1
